@@ -68,6 +68,14 @@ def gen_cases(tier, seed):
             plist.append(ab + [{'at': 'q', 'act': ['resume', ['after-restart']]}])
             plist.append([ab[0], {'at': 'q', 'act': ['resume', ['while-undriven']]}, ab[1]])
             plist.append([{'at': s0, 'act': ['pause', 'p']}] + ab + [{'at': 'q', 'act': ['resume', ['paused']]}, {'at': 'q', 'act': ['play']}])
+            # the wake-up and the cancellation of the stepping task in the same loop iteration (the value is in the wait when the
+            # cancellation is delivered), optionally after a pause
+            plist.append([{'at': s0, 'act': ['resume', ['with-cancel']]}, ab[0], ab[1]])
+            plist.append([{'at': s0, 'act': ['pause', 'p']}, {'at': s0, 'act': ['resume', ['with-cancel']]}, ab[0], ab[1], {'at': 'q', 'act': ['play']}])
+            # a wake-up and a pause before the stepping task wakes up (the pause is carried out together with the move to the
+            # continuation), and an observer that plays during that move
+            for k in (1, 2):
+                plist.append([{'at': s0, 'act': ['resume', ['then-pause']]}, {'at': s0, 'act': ['pause', 'p']}, {'at': ['listener', 'running', k], 'act': ['play']}])
         for i, plan in enumerate(plist):
             yield {'kind': 'plain', 'name': name, 'program': prog, 'plan': plans.uniq(plan, 'q%d' % i), 'drain': True, 'listener': True}
     # (b) workchains
